@@ -590,44 +590,217 @@ def rule_scoped_names(repo, res):
     min_instances=2,
 )
 def id_eq_coherence(repo, res):
-    m = repo.mod("ffcx.ir.representationutils")
-    eq = m.func("QuadratureRule.__eq__")
-    hs = m.func("QuadratureRule.__hash__")
-    idf = m.func("QuadratureRule.id")
-    res.functions.update({eq.key, hs.key, idf.key})
-    compared = set()
-    for n in ast.walk(eq.node):
-        if isinstance(n, ast.Attribute) and isinstance(n.value, ast.Name) and n.value.id == "self":
-            compared.add(n.attr)
-    if not compared:
-        raise AnalysisError("QuadratureRule.__eq__ compares no field of self")
-    # fields fed to the digest object that id() reads
-    digest_attr = None
-    for n in ast.walk(idf.node):
-        if isinstance(n, ast.Attribute) and isinstance(n.value, ast.Name) and n.value.id == "self" and n.attr not in compared:
-            if any(isinstance(p, ast.Call) and isinstance(p.func, ast.Attribute) and p.func.attr in ("hexdigest", "digest") and p.func.value is n for p in ast.walk(idf.node)):
-                digest_attr = n.attr
-    if digest_attr is None:
-        raise AnalysisError("QuadratureRule.id does not read a digest attribute")
-    hashed = set()
-    for n in ast.walk(hs.node):
-        if isinstance(n, ast.Call):
-            nm = call_name(n) or ""
-            is_ctor = nm.startswith("hashlib.") and any(isinstance(p, ast.Assign) and p.value is n and ast.unparse(p.targets[0]) == f"self.{digest_attr}" for p in ast.walk(hs.node))
-            is_update = nm == f"self.{digest_attr}.update"
-            if is_ctor or is_update:
-                for a in n.args:
-                    for x in ast.walk(a):
-                        if isinstance(x, ast.Attribute) and isinstance(x.value, ast.Name) and x.value.id == "self":
-                            hashed.add(x.attr)
-    key = f"{hs.key}:digest-covers-eq"
+    """QuadratureRule interpreted (constructor, __hash__, __eq__, id) on pairs of sample rules with a collision-free model of hashlib."""
+    import hashlib as _hl
+
+    from ..absint import Interp, Node, PyNative, Raised, _PyCall
+    from ..lnodes_model import load_classes
+    from ..npmodel import NDArr, install_arrays
+
+    RU = "ffcx.ir.representationutils"
+    m = repo.mod(RU)
+    fn = {n: m.func(f"QuadratureRule.{n}") for n in ("__init__", "__hash__", "__eq__", "id")}
+    res.functions.update(f.key for f in fn.values())
+    loc = m.line(fn["id"].node)
+
+    class _Sha(PyNative):
+        def __init__(self, data=None):
+            self.h = _hl.sha1()
+            if data is not None:
+                self.update(data)
+
+        def update(self, d):
+            vals = d.flat() if isinstance(d, NDArr) else (list(d) if isinstance(d, (list, tuple)) else [d])
+            self.h.update(repr([float(v).hex() for v in vals]).encode())  # exact content of the doubles, like the raw bytes
+
+        def hexdigest(self):
+            return self.h.hexdigest()
+
+    def tol_close(a, b, rtol=1e-05, atol=1e-08, **k):
+        fa = a.flat() if isinstance(a, NDArr) else list(a)
+        fb = b.flat() if isinstance(b, NDArr) else list(b)
+        if len(fa) != len(fb):
+            raise Raised("ValueError: operands could not be broadcast together")
+        return all(abs(x - y) <= atol + rtol * abs(y) for x, y in zip(fa, fb))
+
+    def np_round(a, decimals=0):
+        if isinstance(a, NDArr):
+            return NDArr([round(float(v), decimals) for v in a.flat()]).reshape(a.shape)
+        return NDArr([round(float(v), decimals) for v in a])
+
+    def world():
+        it = install_arrays(Interp(repo, load_classes(repo), primary=RU))
+        it.obj_classes["QuadratureRule"] = RU
+        for nm in ("sha1", "sha256", "md5", "sha512", "blake2b"):
+            it.overrides[f"hashlib.{nm}"] = _PyCall(lambda d=None, **k: _Sha(d))
+        it.overrides["np.allclose"] = _PyCall(tol_close)
+        it.overrides["np.round"] = _PyCall(np_round)
+        it.overrides["np.around"] = _PyCall(np_round)
+        return it
+
+    def make(it, pts, wts):
+        r = Node("QuadratureRule")
+        it.call_f(fn["__init__"], [r, NDArr(pts), NDArr(wts)])
+        return r
+
+    base_p, base_w = [[0.25, 0.5], [0.125, 0.625]], [0.3, 0.2]
+    eps = 2.0 ** -54
+    pairs = [
+        ("identical rules", (base_p, base_w), (base_p, base_w), True),
+        ("same points, different weights (two custom rules / the vertex scheme next to a Gauss rule)", (base_p, base_w), (base_p, [0.25, 0.25]), False),
+        ("points that differ in the last bit (default(1) and Gauss-Jacobi(1) on a triangle agree up to round-off)", (base_p, base_w), ([[0.25 + eps, 0.5], [0.125, 0.625]], base_w), False),
+        ("weights that differ in the last bit", (base_p, base_w), (base_p, [0.3 + eps * 2, 0.2]), False),
+        ("different points", (base_p, base_w), ([[0.5, 0.25], [0.125, 0.625]], base_w), False),
+    ]
+    for label, a, b, same in pairs:
+        key = f"{fn['id'].key}:{label.split(' (')[0]}"
+        res.ob(key)
+        it = world()
+        try:
+            ra, rb = make(it, *a), make(it, *b)
+            ha, hb = it.call_f(fn["__hash__"], [ra]), it.call_f(fn["__hash__"], [rb])
+            ia, ib = it.call_f(fn["id"], [ra]), it.call_f(fn["id"], [rb])
+            eq = bool(it.call_f(fn["__eq__"], [ra, rb]))
+        except Raised as e:
+            res.fail(key, f"QuadratureRule raises ({e.what}) on {label}", loc)
+            continue
+        one_key = (ha == hb) and eq  # one dictionary entry <=> equal hash and __eq__
+        if same:
+            if not one_key or ia != ib:
+                res.fail(key, f"two rules with identical points and weights are {'two dictionary keys' if not one_key else 'one key'} with ids {ia} / {ib}: the same rule must "
+                         "always get the same id (names would change between compilations)", loc)
+        else:
+            if not one_key and ia == ib:
+                res.fail(key, f"{label}: the two rules are different dictionary keys of the integrand map (hash {'differs' if ha != hb else 'equal'}, __eq__ {eq}), so both are "
+                         f"generated in one kernel, but id() is {ia} for both: weights_{ia}, the _Q{ia} tables and the sp_{ia}_k temporaries are declared twice", loc)
+            if one_key:
+                res.notes.append(f"{label}: treated as one rule (equal hash and __eq__)")
+
+
+@rule(
+    "SIG-RENUMBERING",
+    ["C13", "C12", "C14"],
+    "compute_signature interpreted on an expression whose terminals live on two meshes, under several creation histories (the meshes' "
+    "process-wide ufl ids in either order and across a power of ten, so that numeric and lexicographic order disagree) and hash "
+    "seeds: the renumbering handed to UFL's expression signature - coefficients, constants, arguments and meshes numbered by where the "
+    "expression meets them - must be the same mapping in every history; anything ordered by ufl_id / repr / a set is not",
+    min_instances=3,
+)
+def sig_renumbering(repo, res):
+    from ..absint import Interp, Node, PyNative, Raised, _PyCall
+    from ..lnodes_model import load_classes
+    from ..npmodel import NDArr, install_arrays
+
+    m = repo.mod(NAMING)
+    cs = m.func("compute_signature")
+    res.functions.add(cs.key)
+    loc = m.line(cs.node)
+
+    class Mesh(PyNative):
+        def __init__(self, role, uid):
+            self.role, self.uid = role, uid
+
+        def ufl_id(self):
+            return self.uid
+
+        def _ufl_sort_key_(self):
+            return ("Mesh", 2, self.uid)  # UFL: type name, dimensions, then the global counter
+
+        def _ufl_signature_data_(self, renumbering):
+            return ("Mesh", renumbering[self])
+
+        def __repr__(self):
+            return f"Mesh(blocked element (P1, (2,)), {self.uid})"
+
+        __str__ = __repr__
+
+        def __hash__(self):
+            return hash(("Mesh", self.uid))
+
+        def __eq__(self, o):
+            return isinstance(o, Mesh) and o.uid == self.uid
+
+        def __lt__(self, o):
+            return self._ufl_sort_key_() < o._ufl_sort_key_()
+
+    class Term(PyNative):
+        def __init__(self, kind, name, mesh):
+            self.kind, self.name, self.mesh = kind, name, mesh
+
+        def __repr__(self):
+            return f"{self.kind}({self.name})"
+
+        def __hash__(self):
+            return hash((self.kind, self.name))
+
+        def __eq__(self, o):
+            return isinstance(o, Term) and (o.kind, o.name) == (self.kind, self.name)
+
+    class GeometricQuantity(Term):
+        pass
+
+    def run(ids):
+        A, B = Mesh("A", ids["A"]), Mesh("B", ids["B"])
+        # expression order: f (on B), x (geometry of A), g (on A), constant k (on B)
+        f_, x_, g_, k_ = Term("Coefficient", "f", B), GeometricQuantity("SpatialCoordinate", "x", A), Term("Coefficient", "g", A), Term("Constant", "k", B)
+        expr = Node("Expr", name="f*x*g*k", terminals=[f_, x_, g_, k_])
+        it = install_arrays(Interp(repo, load_classes(repo), primary=NAMING))
+        it.extra_bases["Expr"] = ("Expr",)
+        seen = {}
+
+        def domains_of(e_):
+            if isinstance(e_, Term):
+                return [e_.mesh]
+            # of a whole expression: UFL's canonical order, which starts from a set and sorts by _ufl_sort_key_ (ufl ids)
+            return sorted({t.mesh for t in e_.f["terminals"]}, key=lambda d: d._ufl_sort_key_())
+        for pre in ("ufl.algorithms.", "ufl.algorithms.analysis."):
+            it.overrides[pre + "extract_coefficients"] = _PyCall(lambda e_: [t for t in e_.f["terminals"] if t.kind == "Coefficient"])
+            it.overrides[pre + "extract_constants"] = _PyCall(lambda e_: [t for t in e_.f["terminals"] if t.kind == "Constant"])
+            it.overrides[pre + "extract_arguments"] = _PyCall(lambda e_: [])
+        it.overrides["ufl.algorithms.analysis.unique_tuple"] = _PyCall(lambda d: tuple(dict.fromkeys(d)))
+        it.overrides["ufl.domain.extract_domains"] = _PyCall(domains_of)
+        it.overrides["ufl.domain.extract_unique_domain"] = _PyCall(lambda e_: domains_of(e_)[0])
+        it.overrides["ufl.corealg.traversal.unique_pre_traversal"] = _PyCall(lambda e_: [e_] + list(e_.f["terminals"]))
+        it.overrides["ufl.Mesh"] = "Mesh"
+        it.overrides["ufl.classes.GeometricQuantity"] = "GeometricQuantity"
+
+        def expr_sig(e_, rn):
+            seen["rn"] = {(k.role if isinstance(k, Mesh) else repr(k)): v for k, v in rn.items()}
+            return "EXPRSIG" + repr(sorted(seen["rn"].items()))
+        it.overrides["ufl.algorithms.signature.compute_expression_signature"] = _PyCall(expr_sig)
+        it.overrides["ffcx.__version__"] = "0.0"
+        it.overrides["ffcx.codegeneration.get_signature"] = _PyCall(lambda: "HDR")
+        it.overrides["hashlib.sha1"] = _PyCall(lambda d=b"", **k: Node("Sha", hexdigest=_PyCall(lambda: "H" + repr(d))))
+        pts = NDArr([[0.25, 0.5]], (1, 2))
+        out = it.call_f(cs, [[(expr, pts)], "tag"])
+        return out, seen.get("rn")
+
+    histories = {"A created first": {"A": 5, "B": 9}, "B created first": {"A": 9, "B": 5}, "ids 9 and 10": {"A": 10, "B": 9}, "ids 99 and 100": {"A": 99, "B": 100},
+                 "ids 10 and 9 swapped": {"A": 9, "B": 10}}
+    results = {}
+    key = f"{cs.key}:history-independent-renumbering"
     res.ob(key)
-    missing = sorted(compared - hashed)
-    if missing:
-        res.fail(key, f"__eq__ compares {sorted(compared)} but the digest behind id() consumes only {sorted(hashed)}: two rules differing only in {missing} "
-                 f"(custom rules with the same points and other weights; the vertex scheme next to the degree-2 rule) share `weights_<id>` and every `_Q<id>` table name",
-                 m.line(hs.node))
-    key = f"{idf.key}:digest-is-the-hashed-one"
+    for label, ids in histories.items():
+        try:
+            results[label] = run(ids)
+        except Raised as e:
+            res.fail(key, f"compute_signature raises ({e.what}) on a two-mesh expression ({label})", loc)
+            return
+    first = next(iter(results))
+    for label, (sig, rn) in results.items():
+        if rn != results[first][1] or sig != results[first][0]:
+            res.fail(key, f"an expression f*x*g*k with f, k on mesh B and x, g on mesh A is renumbered {rn} when the meshes' ufl ids are {histories[label]}, but "
+                     f"{results[first][1]} when they are {histories[first]}: the numbering of the domains depends on which mesh was created first (ufl_id, repr or "
+                     "UFL's sort key), so module and object names differ between processes building the same expression", loc)
+            break
+    key = f"{cs.key}:renumbering-by-first-occurrence"
     res.ob(key)
-    if f"self.{digest_attr}" not in ast.unparse(hs.node):
-        res.fail(key, "id() reads a digest that __hash__ does not create", m.line(idf.node))
+    rn = results[first][1] or {}
+    want = {"Coefficient(f)": 0, "Coefficient(g)": 1, "Constant(k)": 0, "B": 0, "A": 1}
+    if rn != want:
+        res.fail(key, f"renumbering is {rn}, expected {want}: coefficients and constants by position, meshes in the order coefficients, arguments, geometric quantities "
+                 "(expression order) and constants meet them", loc)
+    key = f"{cs.key}:every-terminal-renumbered"
+    res.ob(key)
+    if not {"A", "B"} <= set(rn):
+        res.fail(key, f"not every mesh of the expression is renumbered ({rn}): an unrenumbered mesh enters the signature with its process-wide id", loc)
